@@ -1121,7 +1121,7 @@ impl IpHeaders {
             }
             Ipv6(ref mut header, ref mut extensions) => {
                 header.next_header = extensions.set_next_headers(last_next_header);
-                EtherType::IPV4
+                EtherType::IPV6
             }
         }
     }
